@@ -84,6 +84,10 @@ def containers_for(name, data, tier, big):
                        "middle": [("aa/other.txt", filler), (name, data), ("zz/other2.txt", filler)],
                        "last": [("aa/other.txt", filler), ("ab/other2.txt", filler), (name, data)]}[pos]
             yield ("tar-%s-%s" % (fname, pos), "arch.tar", gen.tar(members, fmt), {"container": "tar", "variant": fname + "-" + pos})
+        if not big and name.endswith(".wtmp"):
+            # a member at the top level of the archive whose whole name is the type word
+            for bare in ("wtmp", "wtmp.1"):
+                yield ("tar-%s-bare-%s" % (fname, bare), "arch.tar", gen.tar([(bare, data)], fmt), {"container": "tar", "variant": fname + "-bare-name"})
         if not big and fname != "ustar":
             longname = "d" * 60 + "/" + "e" * 60 + "/" + name
             yield ("tar-%s-longname" % fname, "arch.tar", gen.tar([("aa/other.txt", filler), (longname, data)], fmt),
